@@ -12,6 +12,7 @@ import IvpModel.Proofs.DenseEqs853
 import IvpModel.Proofs.ContLemmas
 import IvpModel.Proofs.SolOutDense
 import IvpModel.Proofs.BdfNumLemmas
+import IvpModel.Proofs.RadauNumLemmas
 
 /-- C06 summary for DOPRI5 (the statement the other methods' lemmas share): with the dense block built from the
     step's own data, the interpolant is the old state at θ = 0 and the accepted state at θ = 1. -/
@@ -261,3 +262,24 @@ theorem c06_bdf_change_d (L : NLits K) (hL : LitOK L) (dcol : Nat → K) (f h xi
 
 end
 end BdfNum
+
+/-! ### Radau: the step interpolant at the ends of its step (`Model/RadauNum.lean`, tied by the full co-simulation X-radaunum) -/
+namespace RadauNum
+noncomputable section
+variable {K : Type} [Field K] [LinearOrder K] [IsStrictOrderedRing K] [SqrtPow K]
+
+/-- with the dense coefficients built from the stage increments of an accepted step, the interpolant is the state before
+    the step at `xi = xold` and the accepted state at `xi = xold + h` (every `h ≠ 0`, every component) -/
+theorem c06_radau_interp_ends (yold z1 z2 z3 xold h : K) (hh : h ≠ 0) :
+    let d := denseCoeffs yold z1 z2 z3
+    interpScalar ((xold - (xold + h)) / h) d.1 d.2.1 d.2.2.1 d.2.2.2 = yold ∧
+    interpScalar (((xold + h) - (xold + h)) / h) d.1 d.2.1 d.2.2.1 d.2.2.2 = d.1 ∧ d.1 = yold + z3 := by
+  intro d
+  have h1 : (xold - (xold + h)) / h = -1 := by field_simp; ring
+  have h2 : ((xold + h) - (xold + h)) / h = 0 := by simp
+  obtain ⟨e1, _, _, e4, e5⟩ := interp_collocation yold z1 z2 z3
+  rw [h1, h2]
+  exact ⟨e1, by rw [e4]; exact e5.symm, e5⟩
+
+end
+end RadauNum
